@@ -65,6 +65,40 @@ func RunCtx(seed int64, idx int) *Result {
 		}
 	}
 	desc := fmt.Sprintf("node %s, parkRequest=%v parkValidate=%v lag=%dus", nd.Id, parkRequest, parkValidate, lagUs)
+	if rng.Intn(4) == 0 {
+		// variant: the SPI call parks while the term of height 1 is still being constructed (the committee request, or the
+		// view-0 leader's proposal request inside the term's start), and the only thing that follows is shutdown
+		nd = net.Nodes[0]
+		which := rng.Intn(2)
+		if which == 0 {
+			nd.BU.OnRequest = func(ctx context.Context, h uint64) { park("RequestNewBlockProposal", ctx, h) }
+		} else {
+			nd.Mem.OnRequest = func(ctx context.Context, h uint64) error { park("RequestOrderedCommittee", ctx, h); return ctx.Err() }
+		}
+		desc = fmt.Sprintf("node %s parks in %s during the construction of the term of height 1, then shutdown", nd.Id, []string{"RequestNewBlockProposal", "RequestOrderedCommittee"}[which])
+		nd.Start()
+		nd.ML.UpdateState(nd.ctx, nil, nil)
+		parked := false
+		for i := 0; i < 50000 && !parked; i++ {
+			mu.Lock()
+			parked = len(caps) > 0
+			mu.Unlock()
+			time.Sleep(100 * time.Microsecond)
+		}
+		if !parked {
+			net.count("inconclusive: no SPI call captured")
+		} else {
+			net.count("C15 construction-time parkings judged")
+		}
+		nd.Cancel()
+		c3, cancel3 := context.WithTimeout(context.Background(), 20*time.Second)
+		nd.Waiter.WaitUntilShutdown(c3)
+		if c3.Err() != nil {
+			net.violate("C15", "blocking-spi-call-stalls-shutdown", "%s: WaitUntilShutdown did not return within 20 s: the call waiting on its context was not released by shutdown", desc)
+		}
+		cancel3()
+		return net.result("ctx", idx, seed, desc)
+	}
 	nd.Start()
 	nd.ML.UpdateState(nd.ctx, nil, nil)
 	if nd.Witness(8) < 8 {
@@ -160,6 +194,14 @@ func RunCtx(seed int64, idx int) *Result {
 			net.violate("C15", "spi-call-not-released", "%s did not return although it only waits on its context", c.kind)
 		}
 		nd.Witness(16)
+		if leave == 0 {
+			// the trigger of the registered, current pair was offered (possibly while a stale trigger still sat in the
+			// worker's one-slot inbox): it must have been acted upon
+			net.count("C19 current triggers judged")
+			if h, v := nd.HV(); h == 1 && v <= uint64(me) {
+				net.violate("C19", "current-trigger-not-acted-upon", "the election trigger of the registered pair (1,%d) was handed to the main loop (after %d stale triggers while the worker was inside an SPI call); after 16 witnessed worker iterations the node is still in view %d", me, steps, v)
+			}
+		}
 		// 3. the block produced under the cancelled context must not be broadcast
 		for _, e := range net.Log.Snapshot() {
 			if e.Kind == spi.EvSend && e.Node == nd.Id && e.Raw != nil {
